@@ -83,6 +83,25 @@ var c14Kind = registerKind("c14", func(in c14In) string {
 		if verr := lc.Validate(); (verr == nil) != valid {
 			return fmt.Sprintf("%s literal lifecycle 0x%04x: Validate = %v; want valid=%v", p, v, verr, valid)
 		}
+		// the setter on a claims-set that ALREADY holds a value (the same one,
+		// a valid one, an invalid one: stored by a non-validating route)
+		for _, prev := range []uint16{v, 0x3000, 0xffff, v ^ 0x0100} {
+			pm := baseValid(p, 0)
+			pm.Lifecycle = u16p(prev)
+			pc, _ := pm.BuildLiteral()
+			serr := pc.SetSecurityLifeCycle(v)
+			if (serr == nil) != valid {
+				return fmt.Sprintf("%s SetSecurityLifeCycle(0x%04x) on a claims-set holding 0x%04x = %v, want valid=%v", p, v, prev, serr, valid)
+			}
+			got, gerr := pc.GetSecurityLifeCycle()
+			wantVal, wantOK := prev, lifecycleState(prev) >= 0
+			if valid {
+				wantVal, wantOK = v, true
+			}
+			if (gerr == nil) != wantOK || (wantOK && got != wantVal) {
+				return fmt.Sprintf("%s after SetSecurityLifeCycle(0x%04x) (err=%v) on a claims-set holding 0x%04x the getter gives %d, %v", p, v, serr, prev, got, gerr)
+			}
+		}
 		// CBOR decode-and-validate route (token built by the independent encoder)
 		tok := icbor.Encode(m.WireNode())
 		dc, derr := psatoken.DecodeAndValidateClaimsFromCBOR(tok)
